@@ -11,9 +11,20 @@ Ties:
       loop + Kalman smoother on the augmented state (lib/PlansCase.v over model/Plans.v Part B and model/Kalman.v)
       evaluated in 2^-384 fixed point, within 1e-7*(1+|x|); on exactly linear models the same numbers are required
       from method="stacked_time".
+  (c) translator/planloop.py regenerates gen/PlanLoopGen.v on every run: the element formula of
+      get_register_as_bool_array and _is_active_status, and what the frame loop of variant k of Inlay.simulate receives
+      (model variant, input_data_array, working data); model/SimVariants.v and proofs/PlanLoopProofs.v are stated over
+      these fragments; in (b) a share of the plans is built by call histories with status=False (points switched off,
+      on/off/on) and a share of the simulations is ONE call on a model with 2-3 parameter variants and a databox with
+      one column per variant (own initial conditions, shocks, stds, targets): variant k of the output is compared with
+      the model evaluated on variant k's solution matrices and variant k's input columns.
 Falsifier (public API only): exogenized cells keep their input values, only endogenized shocks at endogenized dates
 change, the result satisfies the model equations (residual evaluator of C01), a swap round trip recovers the driving
 shocks and the whole path; both modes, both methods, plus nonlinear stacked-time round trips on the models of C06.
+The plan the property speaks about is the EFFECTIVE plan (the points whose last write had status=True): plans are also
+built by histories in which points are switched on, off and on again, and decoy points that end switched off must
+behave as never planned.  Models with several parameter variants / databoxes with several columns: every variant is
+checked against its own inputs (Failure.key carries "+status-off" / "+variants" when the case uses the dimension).
 """
 from __future__ import annotations
 
@@ -29,12 +40,13 @@ import numpy as np
 from vf import core
 from vf.core import CorrResult, Disagreement, Failure
 from translator import frames as trf
+from translator import planloop as trpl
 from harness import C01
 from harness import kalman_common as KC
 
 ID = "C07"
 PROPS = "props/C07.v"
-GENERATED = [trf.OUT]
+GENERATED = [trf.OUT, trpl.OUT]
 CASE_DEPS = ["lib/CaseUtil.vo", "lib/PlansCase.vo"]
 ALLOWED_AXIOMS: set = set()
 TRUSTED = [
@@ -62,7 +74,10 @@ MANIFEST = {
                   "invertible F_t), only endogenized shocks change, the result is the ordinary first-order simulation "
                   "of the returned shocks (including _generate_R = anticipated impact of the endogenized increments), "
                   "swap inverts a simulation under a non-singular impact map; plan registers = last write wins over "
-                  "any call history. Not proved: invertibility of F_t from the impact matrix; stacked_time relies on "
+                  "any call history, and the boolean incidence the simulators read = points whose last write was "
+                  "status=True (element formula regenerated from the source); the loop over variants is pointwise "
+                  "(variant k = one-variant simulation of model variant k on input column k; generated from the "
+                  "source), so every variant hits its own inputs. Not proved: invertibility of F_t from the impact matrix; stacked_time relies on "
                   "C06's theorems (unknown cells, stacked residual) with Newton as oracle. Array plumbing of "
                   "_simulate_conditional and the frame loop are modelled and tied by correspondence only.",
 }
@@ -73,6 +88,7 @@ START = C01.START
 
 def translate(ctx):
     trf.run()
+    trpl.run()
 
 
 # =====================================================================================
